@@ -1,49 +1,508 @@
 //go:build verif
 
+// C12 — Emulated field arithmetic is correct and cannot be cheated
+// (std/math/emulated).
+//
+// B-monitor (differential): generated operation chains over emulated.Field[T]
+// for built-in and custom FieldParams, mirrored instruction by instruction in
+// big.Int; every intermediate result is tapped (limb values through a
+// do-nothing hint, overflow counter by reflection) and compared with the mirror;
+// run in gnark's test engine over three native fields, and a sample compiled
+// and solved on both builders with the commitment replaced by a hash.
+//
+// A-monitor (adversarial): small compiled circuits "r := op(a,b);
+// AssertIsEqual(r, E)" solved with lying hints (solver.OverrideHint) that are
+// best-effort cheats for a false E; Solve must fail whenever E is incongruent.
 package c12
 
 import (
 	"fmt"
 	"math/big"
-	"os"
+	"sort"
+	"strings"
+	"sync"
 	"testing"
-	"time"
 
 	"github.com/consensys/gnark-crypto/ecc"
+	"github.com/consensys/gnark/backend"
+	"github.com/consensys/gnark/backend/groth16"
+	"github.com/consensys/gnark/backend/plonk"
+	"github.com/consensys/gnark/backend/witness"
+	"github.com/consensys/gnark/test/unsafekzg"
+	"github.com/consensys/gnark/constraint"
+	"github.com/consensys/gnark/constraint/solver"
+	"github.com/consensys/gnark/std/math/emulated"
+	"github.com/consensys/gnark/std/math/emulated/emparams"
+
 	"github.com/consensys/gnark/verifharness/internal/vcore"
 )
 
-func TestChainsDev(t *testing.T) {
+type native struct {
+	name  string
+	field *big.Int
+}
+
+var natives = []native{
+	{"bn254", ecc.BN254.ScalarField()},
+	{"bls12-377", ecc.BLS12_377.ScalarField()},
+	{"bw6-761", ecc.BW6_761.ScalarField()},
+}
+
+const workers = 10
+
+func TestC12(t *testing.T) {
 	r := vcore.Start(t, "C12")
-	fields := []*big.Int{ecc.BN254.ScalarField()}
-	cases := allCases()
-	n := 3
-	if s := os.Getenv("DEV_N"); s != "" {
-		fmt.Sscan(s, &n)
+	var maxMu sync.Mutex
+	maxOf := map[string]uint{}
+	noteMax := func(key string, v uint) {
+		maxMu.Lock()
+		if v > maxOf[key] {
+			maxOf[key] = v
+		}
+		maxMu.Unlock()
 	}
+
+	// ---- 0. probes ----
+	runProbes[emparams.Secp256k1Fp](r, "Secp256k1Fp")
+	runProbes[emparams.BN254Fp](r, "BN254Fp")
+	runProbes[pTiny13](r, "custom:4099/2x8")
+	runProbes[pFermat17](r, "custom:2^16+1/3x6")
+
+	cases := allCases()
+
+	// ---- 1. chains in the test engine (+ compiled sample) ----
+	type chainJob struct {
+		fc  *fieldCase
+		idx int
+	}
+	var jobs []chainJob
 	for _, fc := range cases {
-		t0 := time.Now()
+		n := r.Pick(14, 420)
+		if fc.heavy {
+			n = r.Pick(6, 120)
+		}
 		for i := 0; i < n; i++ {
-			rng := r.Rand(fmt.Sprintf("chain/%s/%d", fc.name, i))
-			p := genProgram(rng, fc, genOpt{nOps: 30 + rng.IntN(80), maxCbl: 240 - fc.w, expOK: false})
-			cr := fc.newChain(p)
-			for _, f := range fields {
-				res := cr.Engine(f, p)
-				r.Eval(fmt.Sprintf("%s/%d", fc.name, i), true)
-				if res.err != nil {
-					pred := func(q *program) bool { return cr.Engine(f, q).err != nil }
-					m := minimize(p, pred, 400)
-					m = minimize(cut(m, pred, 300), pred, 400)
-					m = minimize(cut(m, pred, 300), pred, 400)
-					fmt.Println("MINIMIZED\n" + m.Text() + short(cr.Engine(f, m).err))
+			jobs = append(jobs, chainJob{fc, i})
+		}
+	}
+	vcore.Parallel(len(jobs), workers, func(k int) {
+		j := jobs[k]
+		fc := j.fc
+		rng := r.Rand(fmt.Sprintf("chain/%s/%d", fc.name, j.idx))
+		compileIt := j.idx < r.Pick(2, 16) && !(fc.heavy && j.idx >= r.Pick(1, 6))
+		nOps := 10 + rng.IntN(191)
+		if fc.heavy {
+			nOps = 10 + rng.IntN(90)
+		}
+		if compileIt {
+			nOps = 10 + rng.IntN(40)
+		}
+		// the widest MulConst constant every native field used here allows (documented panic beyond)
+		opt := genOpt{nOps: nOps, maxCbl: 250 - fc.w, expOK: !compileIt && fc.mod.BitLen() <= 64 || (!compileIt && j.idx%7 == 3 && !fc.heavy)}
+		p := genProgram(rng, fc, opt)
+		cr := fc.newChain(p)
+		label := fmt.Sprintf("chain|%s|%d", fc.name, j.idx)
+		r.Count("chains", 1)
+		r.Count("chains.field."+fc.name, 1)
+		r.Count("chain.ops", len(p.ops))
+		r.SampleClass("chain:"+fc.name, map[string]any{"program": firstLines(p.Text(), 40)})
+		nats := []native{natives[0], natives[1+j.idx%2]}
+		for _, nt := range nats {
+			where := "engine/" + nt.name
+			res := cr.Engine(nt.field, p)
+			r.Eval(label+"|"+where+"|honest", true)
+			rep := replayOf(p, map[string]any{"engine": where})
+			if res.err != nil {
+				// shrink for the replay file
+				pred := func(q *program) bool { return cr.Engine(nt.field, q).err != nil }
+				m := minimize(cut(minimize(p, pred, 300), pred, 200), pred, 300)
+				rep = replayOf(p, map[string]any{"engine": where, "minimized": m.Text()})
+			}
+			judge(r, p, res, where, rep)
+			if res.rec != nil {
+				noteMax("overflow.max."+nt.name+"/w="+fmt.Sprint(fc.w), res.rec.maxOverflow)
+				if res.rec.maxOverflow+1 >= uint(nt.field.BitLen()-2)-fc.w {
+					r.Count("chains.overflow-reached-maxOverflow", 1)
 				}
-				judge(r, p, res, "engine", replayOf(p, nil))
-				if res.rec != nil {
-					r.Count(fmt.Sprintf("maxoverflow.%s", fc.name), int(res.rec.maxOverflow))
+				n := 0
+				for _, v := range res.rec.autoReduce {
+					n += v
+				}
+				if n > 0 {
+					r.Count("chains.with-automatic-reduction", 1)
+				}
+			}
+			// false statements: an appended false assertion, and a falsified expected witness
+			if neg := negativeVariant(rng, p, opt.maxCbl); neg != nil {
+				nres := fc.newChain(neg).Engine(nt.field, neg)
+				r.Eval(label+"|"+where+"|neg|"+neg.negative, true)
+				judge(r, neg, nres, where, replayOf(neg, map[string]any{"engine": where}))
+				r.SampleClass("negative:"+kindOf(neg.negative), map[string]any{"field": fc.name, "falsified": neg.negative, "engine_said": short(nres.err)})
+			}
+			if neg := mutateExpected(rng, p); neg != nil {
+				nres := cr.Engine(nt.field, neg)
+				r.Eval(label+"|"+where+"|neg|"+neg.negative, true)
+				judge(r, neg, nres, where, replayOf(neg, map[string]any{"engine": where}))
+			}
+		}
+		if !compileIt {
+			return
+		}
+		type tgt struct {
+			nt      native
+			builder string
+		}
+		tg := []tgt{{natives[0], "r1cs"}, {natives[0], "scs"}}
+		if j.idx == 0 {
+			tg = append(tg, tgt{natives[1], []string{"r1cs", "scs"}[len(fc.name)%2]})
+		}
+		for _, g := range tg {
+			where := g.builder + "/" + g.nt.name
+			c, err := cr.Compile(g.nt.field, g.builder, p)
+			if err != nil {
+				// a panic while the circuit is being compiled produces no constraint system at all: it cannot make
+				// a result wrong, so it is recorded as a robustness observation, not as a violation of C12
+				r.Eval(label+"|"+where+"|compile", false)
+				r.Count("robustness.compile-failed."+where+":"+compileCulprit(err), 1)
+				r.SampleClass("robustness:compile-failed:"+compileCulprit(err), map[string]any{"field": fc.name, "engine": where, "error": short(err), "program": firstLines(p.Text(), 60)})
+				continue
+			}
+			r.Count("compiled."+where, 1)
+			r.Count("compiled.constraints", c.ccs.GetNbConstraints())
+			res := cr.Solve(c, g.nt.field, p)
+			r.Eval(label+"|"+where+"|honest", true)
+			judge(r, p, res, where, replayOf(p, map[string]any{"engine": where}))
+			for v := 0; v < 2; v++ {
+				if neg := mutateExpected(rng, p); neg != nil {
+					nres := cr.Solve(c, g.nt.field, neg)
+					r.Eval(label+"|"+where+"|neg|"+neg.negative, true)
+					judge(r, neg, nres, where, replayOf(neg, map[string]any{"engine": where}))
 				}
 			}
 		}
-		fmt.Println(fc.name, time.Since(t0))
+	})
+
+	// ---- 2. variable-modulus chains ----
+	var mjobs []chainJob
+	for _, fc := range cases {
+		if fc.varMod {
+			for i := 0; i < r.Pick(10, 200); i++ {
+				mjobs = append(mjobs, chainJob{fc, i})
+			}
+		}
 	}
-	r.Finish("exploration", "dev", nil)
+	vcore.Parallel(len(mjobs), workers, func(k int) {
+		j := mjobs[k]
+		fc := j.fc
+		rng := r.Rand(fmt.Sprintf("modchain/%s/%d", fc.name, j.idx))
+		compileIt := j.idx == 0
+		p := genModProgram(rng, fc, 6+rng.IntN(30), !compileIt && fc.nbLimbs <= 4 && j.idx%3 == 1)
+		cr := fc.newChain(p)
+		label := fmt.Sprintf("modchain|%s|%d", fc.name, j.idx)
+		r.Count("modchains", 1)
+		r.SampleClass("modchain:"+fc.name, map[string]any{"program": firstLines(p.Text(), 30)})
+		nt := natives[j.idx%2]
+		where := "engine/" + nt.name
+		res := cr.Engine(nt.field, p)
+		r.Eval(label+"|"+where+"|honest", true)
+		judge(r, p, res, where, replayOf(p, map[string]any{"engine": where}))
+		for _, neg := range []*program{negativeVariant(rng, p, 0), mutateExpected(rng, p)} {
+			if neg != nil {
+				nres := fc.newChain(neg).Engine(nt.field, neg)
+				r.Eval(label+"|"+where+"|neg|"+neg.negative, true)
+				judge(r, neg, nres, where, replayOf(neg, map[string]any{"engine": where}))
+			}
+		}
+		if compileIt {
+			for _, b := range []string{"r1cs", "scs"} {
+				where := b + "/bn254"
+				c, err := cr.Compile(natives[0].field, b, p)
+				if err != nil {
+					r.Count("robustness.compile-failed."+where+":"+compileCulprit(err), 1)
+					continue
+				}
+				r.Count("compiled."+where, 1)
+				res := cr.Solve(c, natives[0].field, p)
+				r.Eval(label+"|"+where+"|honest", true)
+				judge(r, p, res, where, replayOf(p, map[string]any{"engine": where}))
+				if neg := mutateExpected(rng, p); neg != nil {
+					nres := cr.Solve(c, natives[0].field, neg)
+					r.Eval(label+"|"+where+"|neg", true)
+					judge(r, neg, nres, where, replayOf(neg, map[string]any{"engine": where}))
+				}
+			}
+		}
+	})
+
+	// ---- 3. adversary: lying hints against compiled circuits ----
+	type advJob struct {
+		fc      *fieldCase
+		kind    string
+		builder string
+		nt      native
+	}
+	var ajobs []advJob
+	for ci, fc := range cases {
+		for ki, kind := range advKinds {
+			if (kind == "modmul" || kind == "modeq") != fc.varMod && (kind == "modmul" || kind == "modeq") {
+				continue
+			}
+			if !fc.prime && (kind == "div" || kind == "inv" || kind == "sqrt") {
+				continue
+			}
+			if fc.heavy && r.Quick() && (ki+ci)%3 != 0 {
+				continue
+			}
+			ajobs = append(ajobs, advJob{fc, kind, "r1cs", natives[0]}, advJob{fc, kind, "scs", natives[0]})
+			if (ci+ki)%4 == 0 || r.Thorough() {
+				ajobs = append(ajobs, advJob{fc, kind, []string{"r1cs", "scs"}[(ci+ki)%2], natives[1]})
+			}
+		}
+	}
+	vcore.Parallel(len(ajobs), workers, func(k int) { runAdv(r, ajobs[k].fc, ajobs[k].kind, ajobs[k].builder, ajobs[k].nt) })
+
+	// ---- evidence ----
+	keys := make([]string, 0, len(maxOf))
+	for k := range maxOf {
+		keys = append(keys, k)
+	}
+	sort.Strings(keys)
+	mo := map[string]uint{}
+	for _, k := range keys {
+		mo[k] = maxOf[k]
+	}
+	r.Set("max_overflow_seen", mo)
+	r.Set("max_overflow_allowed", "native bits - 2 - limb width")
+
+	r.Require("chains", 50)
+	r.Require("slots.checked.elem", 1000)
+	r.Require("slots.checked.bits", 50)
+	r.Require("slots.checked.bool", 10)
+	r.Require("chains.with-automatic-reduction", 20)
+	r.Require("chains.overflow-reached-maxOverflow", 10)
+	r.Require("negative.rejected.engine/bn254", 50)
+	r.Require("compiled.r1cs/bn254", 10)
+	r.Require("compiled.scs/bn254", 10)
+	r.Require("negative.rejected.r1cs/bn254", 10)
+	r.Require("negative.rejected.scs/bn254", 10)
+	r.Require("adv.hint-calls-intercepted", 500)
+	r.Require("adv.lies-applied", 300)
+	r.Require("adv.rejected."+famIdentity, 100)
+	r.Require("adv.rejected."+famQuo, 50)
+	r.Require("adv.rejected."+famHonest, 50)
+	r.Require("adv.rejected."+famWidth, 10)
+	r.Require("adv.honest.accepted", 50)
+
+	r.Finish("exploration",
+		"chains: one case = (field parameters, generated program of 10-200 emulated operations with its witness, execution engine, native field, honest / falsified variant); non-trivial = the program was executed and at least its final assertions evaluated. "+
+			"adversary: one case = (field parameters, attacked circuit, builder, native field, inputs, lie); non-trivial = the asserted result is incongruent to the true one and the lie was applied (or hints honest and the claim false). "+
+			"distinct by hash of (field, program index or circuit kind, engine, variant)",
+		[]string{
+			"a polynomial identity that fails is caught by the random-point check except with probability ~ degree/|native field| (treated as never); the commitment is a SHA-256 hash of the committed values, as the Fiat-Shamir provers make it",
+			"Sqrt: either square root is a correct result; Reduce/Mul results may be r or r+q (documented), only strict reductions and canonical bit decompositions are held to the canonical representative",
+			"Exp is called with exponents whose exact integer value is documented (witness < q, constant, strict reduction); Eval only with reduced operands and degree <= 3 (its doc excludes native overflow checks)",
+			"Lookup2/Mux with a shorter first operand, Select/Lookup2/Mux between a multiplication result and a longer operand, negative MulConst constants and IsZero of short / over-wide zero-overflow elements are exercised by fixed probes only; the chain interpreter routes around the first two so that chains keep running",
+			"ReduceStrict / ToBitsCanonical of a compile-time constant panics at compile time ('trying to reduce a constant'): treated as outside the domain, not generated",
+		})
 }
+
+func compileCulprit(err error) string {
+	s := err.Error()
+	for _, k := range []string{"trying to reduce a constant", "nil pointer", "index out of range", "overflow the native field"} {
+		if strings.Contains(s, k) {
+			return k
+		}
+	}
+	return "other"
+}
+
+func firstLines(s string, n int) string {
+	l := strings.Split(s, "\n")
+	if len(l) > n {
+		l = append(l[:n], fmt.Sprintf("… (%d more lines)", len(l)-n))
+	}
+	return strings.Join(l, "\n")
+}
+
+func kindOf(s string) string {
+	if i := strings.IndexAny(s, "( "); i > 0 {
+		return s[:i]
+	}
+	return s
+}
+
+func runAdv(r *vcore.Run, fc *fieldCase, kind, builder string, nt native) {
+	ar := fc.newAdv(kind)
+	where := builder + "/" + nt.name
+	label := fmt.Sprintf("adv|%s|%s|%s", fc.name, kind, where)
+	rng := r.Rand(label)
+	x := &advCtx{fc: fc, kind: kind, q: nt.field, rng: rng, nbits: 1}
+	if kind == "canon" {
+		x.nbits = fc.mod.BitLen()
+		if fc.mod.TrailingZeroBits() == uint(x.nbits-1) {
+			x.nbits--
+		}
+	}
+	if len(x.scenarios()) == 0 {
+		return
+	}
+	var ccs constraint.ConstraintSystem
+	ccs, err := ar.Compile(nt.field, builder, x.nbits)
+	if err != nil {
+		r.Eval(label+"|compile", true)
+		r.Violation("adv-circuit-compile-failed/"+kind, fmt.Sprintf("[%s %s] %s", fc.name, where, short(err)), map[string]any{"field": fc.name, "circuit": kind, "engine": where})
+		return
+	}
+	r.Count("adv.circuits-compiled", 1)
+	nIn := r.Pick(2, 24)
+	if fc.heavy {
+		nIn = r.Pick(1, 8)
+	}
+	for i := 0; i < nIn; i++ {
+		for _, sc := range x.scenarios() {
+			st := &lieStats{}
+			var opts []solver.Option
+			if sc.opts != nil {
+				opts = sc.opts(st)
+			}
+			w, err := ar.Witness(nt.field, sc.in, x.nbits)
+			if err != nil {
+				r.Inconclusive("adv-witness:" + short(err))
+				continue
+			}
+			opts = append([]solver.Option{commitOverride()}, opts...)
+			var serr error
+			if pan, stack := vcore.Catch(func() { _, serr = ccs.Solve(w, opts...) }); pan != nil {
+				serr = fmt.Errorf("solve panic: %v\n%s", pan, stack)
+			}
+			r.Count("adv.hint-calls-intercepted", int(st.intercepted.Load()))
+			r.Count("adv.lies-applied", int(st.applied.Load()))
+			applied := st.applied.Load() > 0
+			nm := stripParen(sc.name)
+			key := fmt.Sprintf("%s|%d|%s", label, i, sc.name)
+			if serr != nil && strings.Contains(serr.Error(), "harness:") {
+				r.Eval(key, false)
+				r.Inconclusive("adv-harness-error")
+				r.Count("adv.harness-error:"+short(serr), 1)
+				continue
+			}
+			if sc.needLie && !applied {
+				r.Eval(key, false)
+				r.Count("adv.void(lie-not-applicable)."+nm, 1)
+				continue
+			}
+			rep := func() any {
+				return map[string]any{"field": fc.name, "modulus": fc.mod.String(), "limbs": fmt.Sprintf("%dx%d", fc.nbLimbs, fc.w), "circuit": kind, "engine": where, "lie": sc.name,
+					"A": str(sc.in.A), "B": str(sc.in.B), "C": str(sc.in.C), "E": str(sc.in.E), "M": str(sc.in.M), "ALimbs": fmt.Sprint(sc.in.ALimbs), "Bits": str(sc.in.Bits), "Z": sc.in.Z,
+					"false_claim": sc.why, "solver_said": short(serr)}
+			}
+			switch {
+			case sc.mustFail:
+				r.Eval(key, true)
+				if serr == nil {
+					r.Count("adv.ACCEPTED-must-reject."+sc.family+"."+kind, 1)
+					if kind == "mul" && sc.opts != nil {
+						confirmWithProvers(r, fc, where, builder, ccs, w, sc)
+					}
+					r.Violation("accepted-incongruent/"+sc.family, fmt.Sprintf("Solve accepted a false statement: circuit %s over %s on %s, lie %s: %s", kind, fc.name, where, sc.name, sc.why), rep())
+				} else {
+					r.Count("adv.rejected."+sc.family, 1)
+					r.Count("adv.rejected.by-lie."+nm, 1)
+					r.SampleClass("lie:"+nm, map[string]any{"field": fc.name, "circuit": kind, "engine": where, "false_claim": sc.why, "solver_said": short(serr)})
+				}
+			case sc.benign:
+				r.Eval(key, false)
+				if serr == nil {
+					r.Count("adv.benign-lie.accepted."+nm, 1)
+				} else {
+					r.Count("adv.benign-lie.rejected."+nm, 1)
+				}
+			default: // honest hints, true claim
+				r.Eval(key, true)
+				if serr != nil {
+					r.Count("adv.honest.REJECTED."+kind, 1)
+					r.Violation("honest-rejected/adv-"+kind, fmt.Sprintf("true statement with honest hints rejected: circuit %s over %s on %s: %s", kind, fc.name, where, short(serr)), rep())
+				} else {
+					r.Count("adv.honest.accepted", 1)
+				}
+			}
+		}
+	}
+}
+
+var confirmOnce sync.Map
+
+// confirmWithProvers pushes one accepted false statement per (field, builder)
+// through the real prover and verifier: the false claim E is a public input.
+func confirmWithProvers(r *vcore.Run, fc *fieldCase, where, builder string, ccs constraint.ConstraintSystem, w witness.Witness, sc scenario) {
+	if _, done := confirmOnce.LoadOrStore(fc.name+"|"+where, true); done || fc.heavy {
+		return
+	}
+	st := &lieStats{}
+	opt := backend.WithSolverOptions(sc.opts(st)...)
+	pw, err := w.Public()
+	if err != nil {
+		return
+	}
+	var verr error
+	pan, _ := vcore.Catch(func() {
+		if builder == "r1cs" {
+			pk, vk, err := groth16.Setup(ccs)
+			if err != nil {
+				verr = fmt.Errorf("setup: %w", err)
+				return
+			}
+			proof, err := groth16.Prove(ccs, pk, w, opt)
+			if err != nil {
+				verr = fmt.Errorf("prove: %w", err)
+				return
+			}
+			verr = groth16.Verify(proof, vk, pw)
+		} else {
+			srs, lag, err := unsafekzg.NewSRS(ccs)
+			if err != nil {
+				verr = fmt.Errorf("srs: %w", err)
+				return
+			}
+			pk, vk, err := plonk.Setup(ccs, srs, lag)
+			if err != nil {
+				verr = fmt.Errorf("setup: %w", err)
+				return
+			}
+			proof, err := plonk.Prove(ccs, pk, w, opt)
+			if err != nil {
+				verr = fmt.Errorf("prove: %w", err)
+				return
+			}
+			verr = plonk.Verify(proof, vk, pw)
+		}
+	})
+	switch {
+	case pan != nil:
+		r.Count("adv.prover-confirmation.panic", 1)
+	case verr == nil:
+		r.Count("adv.prover-confirmation.PROOF-OF-FALSE-STATEMENT-VERIFIES."+builder, 1)
+		r.SampleClass("proof-of-false-statement:"+builder, map[string]any{"field": fc.name, "engine": where, "lie": sc.name, "false_claim": sc.why, "A": str(sc.in.A), "B": str(sc.in.B), "E(public)": str(sc.in.E),
+			"backend": map[string]string{"r1cs": "groth16", "scs": "plonk"}[builder], "verify": "accepted"})
+	default:
+		r.Count("adv.prover-confirmation.rejected:"+short(verr), 1)
+	}
+}
+
+func str(v *big.Int) string {
+	if v == nil {
+		return ""
+	}
+	return v.String()
+}
+
+func stripParen(s string) string {
+	if i := strings.Index(s, "("); i > 0 {
+		if j := strings.Index(s[i:], ")"); j > 0 {
+			return s[:i] + s[i+j+1:]
+		}
+	}
+	return s
+}
+
+var _ = emulated.GetHints
